@@ -375,7 +375,7 @@ Proof. split; [lra|]. split; [reflexivity|]. apply val_reserved; [lra|lia]. Qed.
    KernelTieLogCounter.lc_step_assembled advances the random source exactly when the flag is 1 and lc_iter_assembled
    iterates it.  The float test is proved to be the integer test of the model (binary64 subtraction of integers below
    2^53 is exact); the hypothesis on fpow is the meaning of the input table powneg (DESIGN 3.4). *)
-From Sketchnu Require KernelsLog KernelTieLogRand KernelTieLogCounter.
+From Sketchnu Require KernelsLog KernelTieLogRand.
 Theorem C06_rand_source_tie :
   (forall p : Z, 0 <= p < 2^64 - 1 ->
      KernelsLog.gen_rand p = if p =? rand_batch_cmp then (rand_batch_gen, 0, 1) else (0, p, p + 1)) /\
@@ -392,6 +392,7 @@ Example C06_rand_source_tie_nonvacuous :
   r1 = rand rs /\ r2 = rand (snd r1).
 Proof. vm_compute. repeat split; reflexivity. Qed.
 
+From Sketchnu Require KernelTieLogCounter.
 Theorem C06_log_counter_source_tie : forall (fpow : float -> float -> float) (base : float) (nr umax : Z) (powneg : Z -> float),
   0 <= nr < 2^16 -> 0 <= umax < 2^16 ->
   (forall c, nr <= c < umax -> fpow base (PrimFloat.opp (PrimFloat.sub (z2f c) (z2f nr))) = powneg (c - nr)) ->
